@@ -1,6 +1,7 @@
 package main
 
 import (
+	"runtime"
 	"encoding/json"
 	"flag"
 	"fmt"
@@ -116,6 +117,20 @@ func main() {
 		}
 	}
 	corpusSeed = seed
+	// memory: collect harder from 36 GB on, and stop with a message (exit 2, no verdict)
+	// rather than being killed by the kernel if the heap still passes 52 GB
+	debug.SetMemoryLimit(36 << 30)
+	go func() {
+		for {
+			time.Sleep(2 * time.Second)
+			var ms runtime.MemStats
+			runtime.ReadMemStats(&ms)
+			if ms.HeapAlloc > 52<<30 {
+				fmt.Println("ENGINE-ERROR: heap above 52 GB; stopping without a verdict")
+				os.Exit(2)
+			}
+		}
+	}()
 	debug.SetGCPercent(200)
 	t0 := time.Now()
 	os.Chdir(filepath.Join(repoDir, "test"))
@@ -243,8 +258,10 @@ func main() {
 			nat.Close()
 			os.Exit(2)
 		}
-		fmt.Printf("job %s: paths=%d steps=%d maxsteps=%d queries=%d (sat %d unsat %d unknown %d) solver=%v wall=%v ends=%v\n",
-			job.Name, res.Paths, res.Steps, res.MaxSteps, res.Queries, res.Sat, res.Unsat, res.Unknown, res.SolverTime.Round(time.Millisecond), res.Wall.Round(time.Millisecond), res.EndKinds)
+		var ms runtime.MemStats
+		runtime.ReadMemStats(&ms)
+		fmt.Printf("job %s: paths=%d steps=%d maxsteps=%d queries=%d (sat %d unsat %d unknown %d) solver=%v wall=%v heap=%dMB ends=%v\n",
+			job.Name, res.Paths, res.Steps, res.MaxSteps, res.Queries, res.Sat, res.Unsat, res.Unknown, res.SolverTime.Round(time.Millisecond), res.Wall.Round(time.Millisecond), ms.HeapAlloc>>20, res.EndKinds)
 		for m, c := range res.EndMsgs {
 			fmt.Printf("   inconclusive x%d: %s\n", c, m)
 		}
